@@ -1,5 +1,5 @@
 /-
-  C07 — definitions used by the property statements in `Ptk/Props/C07.lean`
+  C07 — definitions used by the property statements in `Ptk/Props/C07*.lean`
   (sessions, ghost log, iterated undo / redo, invariants).  No theorems here.
 -/
 import Ptk.Model.C07
@@ -8,48 +8,82 @@ open Ptk.Py
 
 /-! ## sessions -/
 
-/-- the shapes of handler bodies that occur: an arbitrary edit; `n` calls of
-    `Buffer.undo()` followed by a post-processing that keeps the text (emacs
-    `undo`: n = 1, post = id; Vi `u`: n = count, post = `_fix_vi_cursor_position`);
-    `Buffer.redo()` with such a post-processing; an explicit `save_to_undo_stack`. -/
+/-- the shapes of handler bodies that occur:
+    * an arbitrary edit (everything that does not touch the stacks: insertions, deletions, motions,
+      history moves, completions, `set_document`, … — `Gen.C07.stackSites` / `callSites` pin that only
+      `Buffer.reset / save_to_undo_stack / undo / redo`, the two undo handlers and `_call_handler` do);
+    * `n` calls of `Buffer.undo()` followed by a post-processing that keeps the text (emacs `undo`:
+      n = 1, post = id; Vi `u`: n = count, post = `_fix_vi_cursor_position`);
+    * `Buffer.redo()` with such a post-processing; an explicit `save_to_undo_stack`;
+    * `Buffer.reset(doc)` from inside a handler (`stop_search` resets the search buffer);
+    * `Buffer.undo()` / `Buffer.redo()` on a read-only buffer (the handler ends with `EditReadOnlyBuffer`
+      when something was popped; `post` = the cursor fix that still runs when nothing was raised). -/
 inductive Body
   | edit (f : Buf → Buf)
   | undo (n : Nat) (post : Buf → Buf)
   | redo (post : Buf → Buf)
   | save (clear : Bool)
+  | reset (doc : Buf)
+  | roUndo (checksFirst : Bool) (post : Buf → Buf)
+  | roRedo (checksFirst : Bool)
 
 def Body.acts : Body → List Act
   | .edit f => [Act.edit f]
   | .undo n post => List.replicate n Act.undo ++ [Act.edit post]
   | .redo post => [Act.redo, Act.edit post]
   | .save c => [Act.save c]
+  | .reset d => [Act.reset d]
+  | .roUndo fx post => [Act.undoRO fx, Act.edit post]
+  | .roRedo fx => [Act.redoRO fx]
 
 def Body.isEdit : Body → Bool
   | .edit _ => true
   | _ => false
 
-/-- one command = one call of `_call_handler`: handler identity + what its body does -/
+/-- one command = one call of `_call_handler`: handler identity, the value of its `save_before` as a
+    function of `is_repeat` AT THIS CALL (a `save_before` callable may look at anything in the event, so
+    the rule belongs to the call, not to the binding), what its body does, and how the handler ended -/
 structure Cmd where
   h : Nat
+  rule : Bool → Bool
   body : Body
+  out : Outcome := .ok
 
-/-- `rule h` is the `save_before` of the binding with identity `h`, as a function of `is_repeat` -/
-def stepK (rule : Nat → Bool → Bool) (k : KSt) (c : Cmd) : KSt :=
-  callHandler c.h (rule c.h) c.body.acts k
+def stepK (k : KSt) (c : Cmd) : KSt :=
+  callHandlerO c.out c.h c.rule c.body.acts k
 
-def runK (rule : Nat → Bool → Bool) (cmds : List Cmd) (k : KSt) : KSt :=
-  cmds.foldl (stepK rule) k
+def runK (cmds : List Cmd) (k : KSt) : KSt :=
+  cmds.foldl stepK k
+
+/-- what happens between two keys of a session -/
+inductive Item
+  | cmd (c : Cmd)          -- `_call_handler`
+  | kpReset                -- `KeyProcessor.reset()` without `Buffer.reset()`
+  | cpr                    -- a cursor position report (`_process_cpr_response`)
+  | ext (f : Buf → Buf)    -- text / cursor changed outside `_call_handler` (async completion, application code)
+
+def stepI (k : KSt) : Item → KSt
+  | .cmd c => stepK k c
+  | .kpReset => kpReset k
+  | .cpr => cprResponse k
+  | .ext f => extEdit f k
+
+def runI (items : List Item) (k : KSt) : KSt :=
+  items.foldl stepI k
 
 /-- session state + ghost log of the states held at command boundaries (newest first) -/
 structure G where
   k : KSt
   log : List Buf
 
-def stepG (rule : Nat → Bool → Bool) (g : G) (c : Cmd) : G :=
-  { k := stepK rule g.k c, log := g.k.st.buf :: g.log }
+def stepG (g : G) (it : Item) : G :=
+  { k := stepI g.k it,
+    log := match it with
+      | .cmd _ => g.k.st.buf :: g.log
+      | _ => g.log }
 
-def runG (rule : Nat → Bool → Bool) (cmds : List Cmd) (g : G) : G :=
-  cmds.foldl (stepG rule) g
+def runG (items : List Item) (g : G) : G :=
+  items.foldl stepG g
 
 def gInit (b0 : Buf) : G := { k := kInit b0, log := [] }
 
@@ -95,6 +129,9 @@ def Body.run : Body → St → St
   | .undo n post, s => let s' := undoN n s; { s' with buf := post s'.buf }
   | .redo post, s => let s' := Ptk.C07.redo s; { s' with buf := post s'.buf }
   | .save c, s => saveToUndo c s
+  | .reset d, _ => Ptk.C07.reset d
+  | .roUndo fx post, s => let s' := undoRO fx s; { s' with buf := post s'.buf }
+  | .roRedo fx, s => redoRO fx s
 
 /-- invariant inside a command, relative to a log `L` that already contains the boundary state -/
 def Mid (L : List Buf) (s : St) : Prop :=
@@ -107,22 +144,68 @@ def Inv (g : G) : Prop :=
 def Body.PostKeepsText : Body → Prop
   | .undo _ post => ∀ b, (post b).text = b.text
   | .redo post => ∀ b, (post b).text = b.text
+  | .roUndo _ post => ∀ b, (post b).text = b.text
   | _ => True
 
-/-- well-formed binding set / session: the kind of a body is determined by the handler
-    (`isEditH h` = "handler `h` edits", as opposed to "calls undo / redo / save"), every editing
-    handler saves at least when it is not a repeat (`always` and `if_no_repeat` both do), and the
-    post-processing after undo / redo (`_fix_vi_cursor_position`) keeps the text. -/
-structure WF (rule : Nat → Bool → Bool) (isEditH : Nat → Bool) (cmds : List Cmd) : Prop where
-  saves : ∀ h, isEditH h = true → rule h false = true
-  kind : ∀ c ∈ cmds, c.body.isEdit = isEditH c.h
-  post : ∀ c ∈ cmds, c.body.PostKeepsText
+def Body.isReset : Body → Bool
+  | .reset _ => true
+  | _ => false
 
-/-- session invariant: the bottom of the undo stack (or the current text while the stack is empty)
-    is the initial text; right after an editing handler the undo stack is non-empty and the redo
-    stack is empty. -/
-def SInv (isEditH : Nat → Bool) (t0 : Text) (k : KSt) : Prop :=
-  botText k.st = t0 ∧ ∀ h, k.prev = some h → isEditH h = true → k.st.undo ≠ [] ∧ k.st.redo = []
+/-- a read-only undo / redo in the session is the FIXED one (read-only check before the stacks are touched) -/
+def Body.RoFixed : Body → Prop
+  | .roUndo fx _ => fx = true
+  | .roRedo fx => fx = true
+  | _ => True
+
+/-- **semantic discipline of one command at the state it is called in**: it does not change the text
+    without a snapshot — an edit either is saved at its own boundary, or happens while the undo stack
+    is non-empty and the redo stack empty (a repeat inside a group), or keeps the text; undo / redo
+    commands only post-process the cursor; no `Buffer.reset`; read-only undo / redo is the fixed one. -/
+def Cmd.Covered (c : Cmd) (k : KSt) : Prop :=
+  match c.body with
+  | .edit f => c.rule (decide (k.prev = some c.h)) = true ∨ (k.st.undo ≠ [] ∧ k.st.redo = []) ∨
+      (f k.st.buf).text = k.st.buf.text
+  | .undo _ post => ∀ b, (post b).text = b.text
+  | .redo post => ∀ b, (post b).text = b.text
+  | .save _ => True
+  | .reset _ => False
+  | .roUndo fx post => fx = true ∧ ∀ b, (post b).text = b.text
+  | .roRedo fx => fx = true
+
+def Item.Covered (it : Item) (k : KSt) : Prop :=
+  match it with
+  | .cmd c => c.Covered k
+  | .ext f => k.st.undo ≠ [] ∨ (f k.st.buf).text = k.st.buf.text
+  | _ => True
+
+/-- every item of the session is covered at the state it happens in -/
+def Disciplined : List Item → KSt → Prop
+  | [], _ => True
+  | it :: its, k => it.Covered k ∧ Disciplined its (stepI k it)
+
+/-- external edits (async completions, application code) only happen while a snapshot exists (or keep the text) -/
+def ExtOK : List Item → KSt → Prop
+  | [], _ => True
+  | it :: its, k =>
+    (match it with
+      | .ext f => k.st.undo ≠ [] ∨ (f k.st.buf).text = k.st.buf.text
+      | _ => True) ∧ ExtOK its (stepI k it)
+
+/-- well-formed binding set / session (a STATIC condition on the bindings): the kind of a body is
+    determined by the handler (`isEditH h` = "handler `h` edits", as opposed to "calls undo / redo /
+    save"), every editing handler saves at least when it is not a repeat (`always` and `if_no_repeat`
+    both do), the post-processing after undo / redo (`_fix_vi_cursor_position`) keeps the text, no
+    handler resets the buffer, read-only undo / redo is the fixed one. -/
+structure WF (isEditH : Nat → Bool) (items : List Item) : Prop where
+  saves : ∀ c, Item.cmd c ∈ items → isEditH c.h = true → c.rule false = true
+  kind : ∀ c, Item.cmd c ∈ items → c.body.isEdit = isEditH c.h
+  post : ∀ c, Item.cmd c ∈ items → c.body.PostKeepsText
+  noReset : ∀ c, Item.cmd c ∈ items → c.body.isReset = false
+  roFixed : ∀ c, Item.cmd c ∈ items → c.body.RoFixed
+
+/-- right after an editing handler the undo stack is non-empty and the redo stack is empty -/
+def PInv (isEditH : Nat → Bool) (k : KSt) : Prop :=
+  ∀ h, k.prev = some h → isEditH h = true → k.st.undo ≠ [] ∧ k.st.redo = []
 
 /-- consecutive calls of the SAME handler `h` (e.g. self-insert for each typed character, or
     backward-delete-char for each Backspace) with edit bodies `fs` -/
@@ -134,6 +217,14 @@ def Body.KeepsValid : Body → Prop
   | .undo _ post => ∀ b, Valid b → Valid (post b)
   | .redo post => ∀ b, Valid b → Valid (post b)
   | .save _ => True
+  | .reset d => Valid d
+  | .roUndo _ post => ∀ b, Valid b → Valid (post b)
+  | .roRedo _ => True
+
+def Item.KeepsValid : Item → Prop
+  | .cmd c => c.body.KeepsValid
+  | .ext f => ∀ b, Valid b → Valid (f b)
+  | _ => True
 
 def VInv (s : St) : Prop := Valid s.buf ∧ (∀ u ∈ s.undo, Valid u) ∧ (∀ r ∈ s.redo, Valid r)
 
@@ -142,5 +233,8 @@ def AdjDistinct : List Buf → Prop
   | [] => True
   | [_] => True
   | a :: b :: r => a.text ≠ b.text ∧ AdjDistinct (b :: r)
+
+/-- the items of a plain command list -/
+def cmdsI (cs : List Cmd) : List Item := cs.map Item.cmd
 
 end Ptk.C07
